@@ -64,3 +64,34 @@ Example C11_example :
                {| fr_func := B "bbmod/pkg.TestX.func1"; fr_file := B "/m/pkg/a_test.go" |};
                {| fr_func := B "testing.tRunner"; fr_file := B "/go/src/testing/testing.go" |}] = B "/m/pkg/a_test.go".
 Proof. vm_compute. repeat split. Qed.
+
+(* the k-th standalone file: constructFilename appends "_%d" to the name and fmt.Sprintf puts the ordinal there - exactly so
+   when nothing before it holds a '%' (the exactness condition of the model; finding K8 is its failure) *)
+Theorem C11_standalone_file_name : forall c caller test,
+  construct_filename c caller test true =
+  ((match c_filename c with [] => replace_byte slash 95%N test | f => f end) ++ B "_%d" ++ snaps_ext ++ c_ext c)%list.
+Proof. exact standalone_file_name. Qed.
+Theorem C11_ordinal_substitution : forall pre post k : bytes,
+  ~ In 37%N pre -> subst_d (pre ++ 37%N :: 100%N :: post)%list k = (pre ++ k ++ post)%list.
+Proof. exact subst_d_first. Qed.
+Print Assumptions C11_standalone_file_name.
+Print Assumptions C11_ordinal_substitution.
+
+(* MatchStandaloneJSON: ".json" exactly when no Ext option was given *)
+Theorem C11_json_ext_default : forall c, c_ext c = [] -> c_ext (json_ext c) = B ".json".
+Proof. exact json_ext_default. Qed.
+Theorem C11_json_ext_given : forall c, c_ext c <> [] -> json_ext c = c.
+Proof. exact json_ext_given. Qed.
+Print Assumptions C11_json_ext_default.
+Print Assumptions C11_json_ext_given.
+
+(* -trimpath: a relative Dir is kept as it is; the location then depends on the calling test file only through its base name *)
+Theorem C11_trim_dir_kept : forall c caller test standalone,
+  snapshot_path_gen true c caller test standalone = join2 (c_dir c) (construct_filename c caller test standalone).
+Proof. exact trim_dir_kept. Qed.
+Theorem C11_trim_caller_dir_irrelevant : forall c caller1 caller2 test standalone,
+  basename caller1 = basename caller2 ->
+  snapshot_path_gen true c caller1 test standalone = snapshot_path_gen true c caller2 test standalone.
+Proof. exact trim_caller_dir_irrelevant. Qed.
+Print Assumptions C11_trim_dir_kept.
+Print Assumptions C11_trim_caller_dir_irrelevant.
